@@ -53,6 +53,11 @@ int rf_wavheader_decode(const uint8_t *p, unsigned int sz, rf_wavheader_t *wh)
 			wh->channel_mask = rf_unpack_u32le(&pack);
 			rf_unpack_bytes(&pack, wh->sub_format, 16);
 		} else {
+			/* cb_size is a 16-bit field so a larger extension is
+			 * bogus (and would overflow the length arithmetic)
+			 */
+			if (wh->fmt_chunk_size - 18 > 0xffff)
+				return -EINVAL;
 			rf_unpack_bytes(&pack, NULL, (wh->fmt_chunk_size - 18));
 		}
 	}
